@@ -17,6 +17,8 @@ import ScpiVerif.Drv.Heap
 import ScpiVerif.Drv.Lexer
 import ScpiVerif.Drv.Match
 import ScpiVerif.Drv.ParseRun
+import ScpiVerif.Drv.ErrStr
+import ScpiVerif.Drv.Expr
 open ScpiVerif.Drv
 
 def dispatch (cfg : String) (inp : List String) (obs : List String) : Option Verdict :=
@@ -30,6 +32,8 @@ def dispatch (cfg : String) (inp : List String) (obs : List String) : Option Ver
   | some "P" => runParse cfg inp obs
   | some "P8" => runParse cfg inp obs
   | some "P9" => runParse cfg inp obs
+  | some "E" => runErrStr cfg inp obs
+  | some "X" => runExpr inp obs
   | _ => none
 
 structure Stats where
